@@ -15,6 +15,16 @@ def run (args : List String) : String :=
       let e := deliver k (n * k + 8) ids
       let hs := e.slots.filterMap id
       "valid " ++ " ".intercalate (hs.map (fun h => s!"h{h.uid}=[{" ".intercalate (h.received.map toString)}]"))
+  | ["c10.full", n, capB] =>
+    -- one writer, ids 1..n; three handlers: every message (room for all), every message (room
+    -- for capB, never drained), the even actions (room for all)
+    let n := n.toNat!; let capB := capB.toNat!
+    let e0 : EP := [(⟨1, 0, 0, n + 8, false⟩ : Spec), ⟨1, 0, 0, capB, false⟩, ⟨2, 0, 0, n + 8, false⟩].foldl
+      (fun e s => (make e s).1) {}
+    let e := ((List.range n).map (fun i => ({ action := (i + 1) % 11, id := i + 1, isCall := false } : Msg))).foldl
+      (fun e m => (dispatch e m).1) e0
+    let hs := e.slots.filterMap id
+    "valid " ++ " ".intercalate (hs.map (fun h => s!"h{h.uid}=[{" ".intercalate (h.received.map toString)}]"))
   | _ => "bad-op"
 
 end QiVerif.Driver.C10
